@@ -296,5 +296,14 @@ def check(s):
     for cls_ in ("PPO", "A2C", "REINFORCE"):
         ctor_wiring(s, "C03.9", cls_, necessary_for="all gamma and lambda in [0,1] (lambda=0 gives one-step TD errors, lambda=1 Monte-Carlo returns): the values passed to the "
                                                     "estimator are the ones the user configured, zero included")
-    for r, n in (("C03.1", 3), ("C03.2", 2), ("C03.3", 1), ("C03.4", 2), ("C03.5", 2), ("C03.6", 4), ("C03.7", 5), ("C03.8", 6), ("C03.9", 20)):
+    # C03.10 the estimator works at the buffer's own width: "equal GAE ... over the reals" is read at the precision of the rollout arrays,
+    # so the discount, the trace decay and the bootstrap value are not cast to a pinned width (a float32 gamma inside a float64 rollout
+    # rounds every coefficient of the recursion; the normaliser erases float casts, which is why this is a separate dtype-provenance rule)
+    from ..effects import pinned_width_literals
+    for cls10, meth10 in (("RolloutBuffer", "compute_returns_and_advantages"), ("RolloutBuffer", "__init__")):
+        ci10, dc10, fn10 = s.method(cls10, meth10)
+        pins = pinned_width_literals(fn10)
+        s.ob("C03.10", f"{cls10}.{meth10}", not pins, "rewards, values, discount, decay and bootstrap are combined at the platform's default width (no pinned-width cast)", s.loc(cls10, meth10),
+             key="pinned-width", detail="; ".join(pins), necessary_for="advantages and returns equal the GAE definition at the precision of the rollout (also in 64-bit mode)")
+    for r, n in (("C03.10", 2), ("C03.1", 3), ("C03.2", 2), ("C03.3", 1), ("C03.4", 2), ("C03.5", 2), ("C03.6", 4), ("C03.7", 5), ("C03.8", 6), ("C03.9", 20)):
         s.floor(r, n)
